@@ -10,7 +10,11 @@
 
   The translator's `c10locks` target emits, for every function of
   `src/value/list.rs` and every binding body that touches a mutex, the lock
-  events as written (`Ev`).  This file gives them their meaning:
+  events as written, as a tree that follows the control flow (`Tree`: one
+  `branch` per `if`/`else`, `match` arm, loop body, early `return`; the
+  condition is recorded where it compares the addresses of the two lists).
+  `Tree.exec` is what a call does on given lists, `Tree.paths` are its
+  control-flow paths (`Ev`).  This file gives them their meaning:
 
   * `.lock()` blocks while another thread holds the mutex and returns
     `Err(PoisonError)` when a thread panicked while holding it;
@@ -35,20 +39,47 @@ inductive OnFail where
   deriving DecidableEq, Repr
 
 /-- which list's mutex, as written: the receiver (`self`/`this`), the second
-    list argument (`other`), a list created inside the function (`new`), the
-    lower- / higher-addressed of `self` and `other` (bound by
-    `let (a, b) = if Arc::as_ptr(&self.0) > Arc::as_ptr(&other.0) { (other, self) } else { (self, other) }`),
-    or an expression the translator cannot classify -/
+    list argument (`other`), a list created inside the function
+    (`let new = Self::new(..)`), or an expression the translator cannot classify -/
 inductive Tgt where
-  | self_ | other | fresh | lo | hi | unknown
+  | self_ | other | fresh | unknown
   deriving DecidableEq, Repr
 
+/-- the condition of a branch, as written: a comparison of the two lists'
+    addresses, or anything else (`opaque`: depends on the data, both sides possible) -/
+inductive Cond where
+  /-- `Arc::ptr_eq(&self.0, &other.0)` -/
+  | same
+  /-- `Arc::as_ptr(&self.0) < Arc::as_ptr(&other.0)` -/
+  | selfLtOther
+  /-- `Arc::as_ptr(&other.0) < Arc::as_ptr(&self.0)` -/
+  | otherLtSelf
+  | opaque
+  deriving DecidableEq, Repr
+
+/-- one step of a control-flow path -/
 inductive Ev where
   | acq (k : AcqKind) (f : OnFail) (t : Tgt)
   | rel (t : Tgt)
-  /-- `if Arc::ptr_eq(&self.0, &other.0) { return … }` -/
-  | distinctOrReturn
+  /-- the path takes the side of a branch on which `c` evaluates to `b` -/
+  | assume (c : Cond) (b : Bool)
   deriving DecidableEq, Repr
+
+/-- the lock events of a function body along its control flow -/
+inductive Tree where
+  /-- the call returns (every guard has been released explicitly before) -/
+  | done
+  | acq (k : AcqKind) (f : OnFail) (t : Tgt) (rest : Tree)
+  | rel (t : Tgt) (rest : Tree)
+  | branch (c : Cond) (thn els : Tree)
+  deriving Repr
+
+/-- every control-flow path through the tree, with the decisions it takes -/
+def Tree.paths : Tree → List (List Ev)
+  | .done => [[]]
+  | .acq k f t r => r.paths.map (Ev.acq k f t :: ·)
+  | .rel t r => r.paths.map (Ev.rel t :: ·)
+  | .branch c a b => a.paths.map (Ev.assume c true :: ·) ++ b.paths.map (Ev.assume c false :: ·)
 
 /-- one mutex: the thread holding it, and the poison flag -/
 structure Mx where
@@ -107,48 +138,102 @@ def Ev.safe : Ev → Bool
   | .acq .try_ f _ => f == .other
   | _ => true
 
-/-- instantiate an event (`ρ` maps the written targets to mutexes) -/
+/-- instantiate an event (`ρ` maps the written targets to mutexes = their addresses) -/
 def Ev.inst (ρ : Tgt → Nat) : Ev → Option Act
   | .acq k f t => some (.acq k f (ρ t))
   | .rel t => some (.rel (ρ t))
-  | .distinctOrReturn => none
+  | .assume _ _ => none
 
 def St.unpoisoned (s : St) : Prop := ∀ i, (s i).poisoned = false
 
 /-- all mutexes free and unpoisoned -/
 def St.init : St := fun _ => ⟨none, false⟩
 
-/-! ### a thread never locks what it already holds (static check over the events) -/
+/-! ### what a path knows about the two lists' addresses -/
 
-/-- may the two written targets be the same mutex?  (`distinct`: the function
-    has returned already if `self` and `other` are the same list) -/
-def mayAlias (distinct : Bool) : Tgt → Tgt → Bool
+/-- which relations between the addresses of `self` and `other` are still possible -/
+structure Rel where
+  eq : Bool
+  lt : Bool   -- `self` below `other`
+  gt : Bool   -- `other` below `self`
+  deriving DecidableEq, Repr
+
+/-- nothing known -/
+def Rel.top : Rel := ⟨true, true, true⟩
+
+def Rel.assume (K : Rel) : Cond → Bool → Rel
+  | .same, true => ⟨K.eq, false, false⟩
+  | .same, false => ⟨false, K.lt, K.gt⟩
+  | .selfLtOther, true => ⟨false, K.lt, false⟩
+  | .selfLtOther, false => ⟨K.eq, false, K.gt⟩
+  | .otherLtSelf, true => ⟨false, false, K.gt⟩
+  | .otherLtSelf, false => ⟨K.eq, K.lt, false⟩
+  | .opaque, _ => K
+
+/-- the knowledge is correct for the assignment `ρ` of targets to mutexes (addresses) -/
+def Rel.admits (K : Rel) (ρ : Tgt → Nat) : Prop :=
+  (ρ .self_ = ρ .other → K.eq = true) ∧ (ρ .self_ < ρ .other → K.lt = true) ∧ (ρ .other < ρ .self_ → K.gt = true)
+
+/-- the condition evaluates to `b` on the lists `ρ` (an opaque one may go either way) -/
+def Cond.holds (ρ : Tgt → Nat) : Cond → Bool → Prop
+  | .same, b => (b = true ↔ ρ .self_ = ρ .other)
+  | .selfLtOther, b => (b = true ↔ ρ .self_ < ρ .other)
+  | .otherLtSelf, b => (b = true ↔ ρ .other < ρ .self_)
+  | .opaque, _ => True
+
+/-- the value of an address condition on the lists `ρ`; `none`: depends on the data -/
+def Cond.eval (ρ : Tgt → Nat) : Cond → Option Bool
+  | .same => some (decide (ρ .self_ = ρ .other))
+  | .selfLtOther => some (decide (ρ .self_ < ρ .other))
+  | .otherLtSelf => some (decide (ρ .other < ρ .self_))
+  | .opaque => none
+
+/-- every decision the path takes is the one the lists `ρ` dictate -/
+def pathHolds (ρ : Tgt → Nat) : List Ev → Prop
+  | [] => True
+  | .assume c b :: r => c.holds ρ b ∧ pathHolds ρ r
+  | _ :: r => pathHolds ρ r
+
+/-! ### a thread never locks what it already holds (static check over the paths) -/
+
+/-- may the two written targets be the same mutex, given what the path knows? -/
+def mayAlias (K : Rel) : Tgt → Tgt → Bool
   | .unknown, _ => true
   | _, .unknown => true
   | .fresh, .fresh => true
   | .fresh, _ => false
   | _, .fresh => false
-  | .self_, .other => !distinct
-  | .other, .self_ => !distinct
-  | .lo, .hi => !distinct
-  | .hi, .lo => !distinct
-  | _, _ => true     -- the same written target, or `lo`/`hi` against `self`/`other` (each is one of them)
+  | .self_, .other => K.eq
+  | .other, .self_ => K.eq
+  | _, _ => true     -- the same written target
 
 /-- no acquisition of a mutex that may already be held by the same call -/
-def noRelock : List Ev → List Tgt → Bool → Bool
+def noRelock : List Ev → List Tgt → Rel → Bool
   | [], _, _ => true
-  | .acq _ _ t :: r, held, d => !(held.any (mayAlias d t)) && noRelock r (t :: held) d
-  | .rel t :: r, held, d => noRelock r (held.erase t) d
-  | .distinctOrReturn :: r, held, _ => noRelock r held true
+  | .acq _ _ t :: r, held, K => !(held.any (mayAlias K t)) && noRelock r (t :: held) K
+  | .rel t :: r, held, K => noRelock r (held.erase t) K
+  | .assume c b :: r, held, K => noRelock r held (K.assume c b)
 
-/-- the actions one call performs, in order, under an assignment `ρ` of the
-    written targets to mutexes; at `if Arc::ptr_eq(..) { return }` the call
-    ends when `self` and `other` are the same list -/
+/-- the actions a path performs, in order, under an assignment `ρ` of the
+    written targets to mutexes -/
 def callActs (ρ : Tgt → Nat) : List Ev → List Act
   | [] => []
   | .acq k f t :: r => .acq k f (ρ t) :: callActs ρ r
   | .rel t :: r => .rel (ρ t) :: callActs ρ r
-  | .distinctOrReturn :: r => if ρ .self_ = ρ .other then [] else callActs ρ r
+  | .assume _ _ :: r => callActs ρ r
+
+/-- the actions one call performs on the lists `ρ`: address conditions are
+    evaluated on `ρ`; `o` decides the data-dependent branches, in order -/
+def Tree.exec (ρ : Tgt → Nat) : Tree → List Bool → List Act
+  | .done, _ => []
+  | .acq k f t r, o => .acq k f (ρ t) :: r.exec ρ o
+  | .rel t r, o => .rel (ρ t) :: r.exec ρ o
+  | .branch c a b, o =>
+    match c.eval ρ, o with
+    | some true, _ => a.exec ρ o
+    | some false, _ => b.exec ρ o
+    | none, [] => b.exec ρ []
+    | none, x :: o' => if x then a.exec ρ o' else b.exec ρ o'
 
 /-- a sequence of actions never acquires a mutex it has acquired and not yet released -/
 def heldOk : List Act → List Nat → Bool
@@ -156,29 +241,29 @@ def heldOk : List Act → List Nat → Bool
   | .acq _ _ m :: r, held => !held.contains m && heldOk r (m :: held)
   | .rel m :: r, held => heldOk r (held.erase m)
 
-/-- admissible assignments: a list created inside the call is no other list;
-    `lo`/`hi` are `self`/`other` in one of the two orders -/
+/-- admissible assignments: a list created inside the call is no other list -/
 structure RhoOk (ρ : Tgt → Nat) : Prop where
   fresh_self : ρ .fresh ≠ ρ .self_
   fresh_other : ρ .fresh ≠ ρ .other
-  fresh_lo : ρ .fresh ≠ ρ .lo
-  fresh_hi : ρ .fresh ≠ ρ .hi
-  lohi : (ρ .lo = ρ .self_ ∧ ρ .hi = ρ .other) ∨ (ρ .lo = ρ .other ∧ ρ .hi = ρ .self_)
 
 /-! ### lock order: two lists held at once are taken in address order -/
 
+/-- the path knows that `h` lies below `t` -/
+def knownBelow (K : Rel) (h t : Tgt) : Bool :=
+  (h == .self_ && t == .other && !K.eq && !K.gt) || (h == .other && t == .self_ && !K.eq && !K.lt)
+
 /-- holding `h`, may the call wait for `t` without risking a wait cycle with
     another call?  A list created inside the call is invisible to every other
-    thread (nobody else can hold it or wait for it); otherwise only the
-    address-ordered pair is allowed. -/
-def orderedPair (h t : Tgt) : Bool :=
-  h == .fresh || t == .fresh || (h == .lo && t == .hi)
+    thread (nobody else can hold it or wait for it); otherwise `h` must be
+    known to lie below `t` (the global order: the address). -/
+def orderedPair (K : Rel) (h t : Tgt) : Bool :=
+  h == .fresh || t == .fresh || knownBelow K h t
 
-def lockOrderOk : List Ev → List Tgt → Bool
-  | [], _ => true
-  | .acq _ _ t :: r, held => held.all (fun h => orderedPair h t) && lockOrderOk r (t :: held)
-  | .rel t :: r, held => lockOrderOk r (held.erase t)
-  | .distinctOrReturn :: r, held => lockOrderOk r held
+def lockOrderOk : List Ev → List Tgt → Rel → Bool
+  | [], _, _ => true
+  | .acq _ _ t :: r, held, K => held.all (fun h => orderedPair K h t) && lockOrderOk r (t :: held) K
+  | .rel t :: r, held, K => lockOrderOk r (held.erase t) K
+  | .assume c b :: r, held, K => lockOrderOk r held (K.assume c b)
 
 /-! ### configurations of threads: what "no deadlock" means -/
 
@@ -256,26 +341,31 @@ structure WF (ts : List Nat) (priv : Nat → Nat → Prop) [∀ t, DecidablePred
   private_ : ∀ t m, priv t m → ∀ t', t' ≠ t → ∀ a ∈ c.prog t', Act.mutex a ≠ m
   priv_holder : ∀ t m, priv t m → ∀ t', (c.s m).holder = some t' → t' = t
 
-/-- the static discipline of one call, as written: only blocking locks, never a
-    list that may already be held, a second shared list only in address order
-    (or one of the two is the call's own new list), releases only of what is
-    held, nothing held at an early return or at the end -/
-def callOk : List Ev → List Tgt → Bool → Bool
+/-- the static discipline of one path, as written: only blocking locks, never a
+    list that may already be held, a second shared list only when the held one
+    is known to have the lower address (or one of the two is the call's own new
+    list), releases only of what is held, nothing held at the end -/
+def callOk : List Ev → List Tgt → Rel → Bool
   | [], held, _ => held.isEmpty
-  | .acq k _ t :: r, held, d =>
-    k == .blocking && !(held.any (mayAlias d t)) &&
-    (t == .fresh || held.all (fun h => h == .fresh || (h == .lo && t == .hi))) && callOk r (t :: held) d
-  | .rel t :: r, held, d => held.contains t && callOk r (held.erase t) d
-  | .distinctOrReturn :: r, held, _ => held.isEmpty && callOk r held true
+  | .acq k _ t :: r, held, K =>
+    k == .blocking && !(held.any (mayAlias K t)) &&
+    (t == .fresh || held.all (fun h => h == .fresh || knownBelow K h t)) && callOk r (t :: held) K
+  | .rel t :: r, held, K => held.contains t && callOk r (held.erase t) K
+  | .assume c b :: r, held, K => callOk r held (K.assume c b)
 
-/-- admissible assignments with the address order and the privacy of the call's own new list -/
+/-- admissible assignments with the privacy of the call's own new list -/
 structure RhoOrd (ρ : Tgt → Nat) (privs : Nat → Prop) : Prop extends RhoOk ρ where
-  lo_le_hi : ρ .lo ≤ ρ .hi
   fresh_priv : privs (ρ .fresh)
 
+/-- one call: the function's tree, the lists it runs on, the outcomes of its data-dependent branches -/
+structure Call where
+  tree : Tree
+  ρ : Tgt → Nat
+  o : List Bool
+
 /-- a thread's program: the calls it makes, one after the other -/
-def progOf : List (List Ev × (Tgt → Nat)) → List Act
+def progOf : List Call → List Act
   | [] => []
-  | (evs, ρ) :: r => callActs ρ evs ++ progOf r
+  | c :: r => c.tree.exec c.ρ c.o ++ progOf r
 
 end RotoV.MutexPanic
